@@ -81,7 +81,7 @@ func sendRequestToTarget(req *http.Request, httpsDefault bool) (*http.Response, 
 	resp, err := http.DefaultClient.Do(req)
 	if err != nil {
 		slog.Error("Error sending request to target", "url", req.URL, "error", err)
-		return nil, fmt.Errorf("%w: %v", ErrSendRequestFailed, err)
+		return nil, fmt.Errorf("%w: %w", ErrSendRequestFailed, err)
 	}
 	slog.Debug("Sent request to target", "url", req.URL, "status", resp.Status)
 
